@@ -351,7 +351,7 @@ class Gen:
         if dd > 0:
             prods += ["dx", "div", "gradcomp"]
         if self.math:
-            prods += ["math", "math", "fpow", "bessel", "atan2"]
+            prods += ["math", "math", "fpow", "epow", "bessel", "atan2"]
         if self.cond:
             prods += ["conditional", "minmax", "abs", "sign"]
         if self.cplx:
@@ -372,6 +372,18 @@ class Gen:
             return sub() ** rng.choice([2, 2, 3, 1, 0] if not self.poly else [2, 3, 1])
         if p == "fpow":
             return self.positive(depth, rmode, dd) ** rng.choice([0.5, 1.5, -1, -2, -0.5, 2.5, 2, 3])
+        if p == "epow":
+            # a power whose EXPONENT is an expression: constant base (literal / Constant) or varying positive base
+            ex = 0.5 * ufl.tanh(sub()) if rng.random() < 0.6 else 0.25 * sub()
+            r = rng.random()
+            if r < 0.4:
+                base = ufl.as_ufl(rng.choice([2, 3, 0.5, 1.5, 2.5]))
+            elif r < 0.6 and not self.cplx:
+                c = U.const((), rng.randrange(2))
+                base = 3 + c * c
+            else:
+                base = self.positive(depth, rmode, dd)
+            return base**ex
         if p == "math":
             name = rng.choice(["sin", "cos", "exp", "ln", "sqrt", "tan", "sinh", "cosh", "tanh", "asin", "acos", "atan", "erf"])
             a = sub()
